@@ -123,6 +123,10 @@ pub trait Property {
     fn max_shrink_iters(_tier: Tier) -> u32 {
         4000
     }
+    /// Wall-clock cap on shrinking (ms); the best case found so far is reported when it is hit.
+    fn max_shrink_time_ms(_tier: Tier) -> u32 {
+        20_000
+    }
     /// Hook run once in every process before anything else (e.g. install vmem hooks).
     fn init() {}
     /// Odd-numbered workers run the build with overflow checks and debug assertions (profile relchk).
@@ -182,6 +186,7 @@ pub fn run_worker<P: Property>(tier: Tier, seed: u64, worker: usize, n: u64, dir
         failure_persistence: None,
         rng_seed: RngSeed::Fixed(wseed),
         max_shrink_iters: P::max_shrink_iters(tier),
+        max_shrink_time: P::max_shrink_time_ms(tier),
         max_global_rejects: 1 << 20,
         ..Config::default()
     };
